@@ -75,7 +75,7 @@ type Task struct {
 	// text, "env" = only through the task's env: block, "sub" = only through the vars of
 	// the task's own sub-calls (the task then has Call entries only).
 	XVia string
-	File        int  // 0 = root Taskfile; k>0 = included file k (namespace "n<k>")
+	File int // 0 = root Taskfile; k>0 = included file k (namespace "n<k>")
 }
 
 type Prog struct {
